@@ -95,7 +95,8 @@ type c02Member struct {
 	selfHeardAny   bool
 	forgedJoinMax  uint64 // newest crafted join intent about this member (never issued by it)
 	flapAfterLeave map[int]bool // observers told "up" again after they had applied this member's leave intent
-	ppResurrected  map[int]bool // observers where a push/pull merge turned this member from leaving back to alive
+	ppResurrected  map[int]bool // observers where a push/pull merge turned this member from leaving back to alive at a time that is none of its own join times
+	ownJoin        map[uint64]bool // status times at which the member listed itself alive: the times of its own joins (start, rejoin, refutation)
 	selfHeardStale map[uint64]bool // leave claims it received that were not newer than its own status time
 	pendingFL  []*async
 }
@@ -480,6 +481,12 @@ func (e *c02) afterStep(s Step) {
 			}
 		}
 		e.prev[o] = v
+		if self, ok := v[c.Nodes[o].Name]; ok && self.Status == "alive" {
+			if e.m[o].ownJoin == nil {
+				e.m[o].ownJoin = map[uint64]bool{}
+			}
+			e.m[o].ownJoin[self.LTime] = true
+		}
 		r.Logf("  view n%d: %s", o, viewString(v))
 		r.State(fmt.Sprintf("%d|%s", o, viewString(v)))
 	}
@@ -761,7 +768,14 @@ func (e *c02) pushPull(i, j int, half bool) bool {
 	note := func(o int, before, after map[string]MemberView) {
 		for x := 0; x < e.n; x++ {
 			name := c.Nodes[x].Name
-			if before[name].Status == "leaving" && after[name].Status == "alive" {
+			selfNow := MemberView{}
+			if e.m[x].running {
+				selfNow = c.View(x)[name] // (the member may have refuted within this very exchange)
+			}
+			if before[name].Status == "leaving" && after[name].Status == "alive" && !e.m[x].ownJoin[after[name].LTime] &&
+				!(selfNow.Status == "alive" && selfNow.LTime == after[name].LTime) {
+				// (alive again at the time of one of the member's own joins is a refutation
+				// or a rejoin arriving through the state sync: nothing wrong with that)
 				e.m[x].ppResurrected[o] = true
 				e.r.Probe("pushpull-leaving-to-alive")
 			}
